@@ -145,23 +145,80 @@ def _check_shape(f: FuncInfo, SH: RuleResult):
 
 
 def _check_termination_condition(model: Model, TC: RuleResult):
+    """Truth table of TerminationCondition.check over the finite domain of comparison outcomes.  Each of the four tolerance
+    comparisons is an atom with three states: holds (norm < tol), fails (norm >= tol), unordered (a NaN operand: every ordering
+    comparison is False).  The function must return True iff all four atoms hold - in particular a NaN iterate is never
+    'converged'.  3^4 assignments are enumerated; the code is interpreted, not executed."""
+    import itertools
     chk = model.func(ROOTSOLVER, "TerminationCondition.check")
-    rets = [r for r in own_nodes(chk.node) if isinstance(r, ast.Return)]
-    if len(rets) != 1:
-        raise AnalysisError("TerminationCondition.check: expected a single return")
-    e = rets[0].value
-    conj = e.values if isinstance(e, ast.BoolOp) and isinstance(e.op, ast.And) else [e]
-    seen = {}
-    for c in conj:
-        if isinstance(c, ast.Compare) and len(c.ops) == 1 and isinstance(c.ops[0], (ast.Lt, ast.LtE)):
-            for n in ast.walk(c.comparators[0]):
-                if isinstance(n, ast.Attribute) and isinstance(n.value, ast.Name) and n.value.id == "self":
-                    seen[n.attr] = c
-    for tol in ("f_tol", "f_rtol", "x_tol", "x_rtol"):
-        if tol in seen:
-            TC.ok(chk.fq, "`%s` bounded by self.%s (conjunct)" % (ast.unparse(seen[tol].left), tol))
-        else:
-            TC.bad(chk, rets[0], "tolerance self.%s does not appear as an upper bound in the conjunction" % tol)
+    TOLS = ("x_tol", "x_rtol", "f_tol", "f_rtol")
+
+    def tol_of(e):
+        names = [n.attr for n in ast.walk(e) if isinstance(n, ast.Attribute) and isinstance(n.value, ast.Name) and n.value.id == "self" and n.attr in TOLS]
+        return names[0] if len(set(names)) == 1 else None
+    seen_atoms = {}
+
+    def ev(e, st):
+        if isinstance(e, ast.Constant) and isinstance(e.value, bool):
+            return e.value
+        if isinstance(e, ast.BoolOp):
+            vals = [ev(v, st) for v in e.values]
+            return all(vals) if isinstance(e.op, ast.And) else any(vals)
+        if isinstance(e, ast.UnaryOp) and isinstance(e.op, ast.Not):
+            return not ev(e.operand, st)
+        if isinstance(e, ast.Call) and ast.unparse(e.func) == "bool" and len(e.args) == 1:
+            return ev(e.args[0], st)
+        if isinstance(e, ast.Compare) and len(e.ops) == 1:
+            l, r, op = e.left, e.comparators[0], e.ops[0]
+            tl, tr = tol_of(l), tol_of(r)
+            if (tl is None) == (tr is None):
+                raise AnalysisError("C03-TC: comparison `%s` does not bound a norm by exactly one tolerance" % ast.unparse(e))
+            tol = tr or tl
+            seen_atoms[tol] = e
+            state = st[tol]
+            less_like = isinstance(op, (ast.Lt, ast.LtE))
+            greater_like = isinstance(op, (ast.Gt, ast.GtE))
+            if not (less_like or greater_like):
+                raise AnalysisError("C03-TC: unsupported comparison `%s`" % ast.unparse(e))
+            if tr is not None:      # norm OP tol
+                return state == "holds" if less_like else state == "fails"
+            return state == "holds" if greater_like else state == "fails"     # tol OP norm
+        raise AnalysisError("C03-TC: cannot interpret `%s` in TerminationCondition.check" % ast.unparse(e))
+
+    def run(stmts, st):
+        for s_ in stmts:
+            if isinstance(s_, ast.Return):
+                return ev(s_.value, st)
+            if isinstance(s_, ast.If):
+                r = run(s_.body if ev(s_.test, st) else s_.orelse, st)
+                if r is not None:
+                    return r
+            elif isinstance(s_, (ast.Assign, ast.AnnAssign, ast.Expr, ast.Pass)):
+                continue
+            else:
+                raise AnalysisError("C03-TC: unexpected statement `%s`" % norm_stmt(s_))
+        return None
+    bad = None
+    n = 0
+    for combo in itertools.product(("holds", "fails", "unordered"), repeat=4):
+        st = dict(zip(TOLS, combo))
+        n += 1
+        r = run(chk.node.body, st)
+        want = all(c == "holds" for c in combo)
+        if bool(r) != want and bad is None:
+            bad = (st, r)
+    missing = [t for t in TOLS if t not in seen_atoms]
+    for tol in TOLS:
+        if tol in missing:
+            TC.bad(chk, chk.node, "tolerance self.%s does not take part in the termination test" % tol)
+        elif bad is None:
+            TC.ok(chk.fq, "`%s`: converged requires this bound to HOLD (fails / NaN -> not converged)" % ast.unparse(seen_atoms[tol]))
+    if bad is not None:
+        st, r = bad
+        nan = any(v == "unordered" for v in st.values())
+        TC.bad(chk, chk.node, "check returns %s when %s: %s" % (r, st, "an iterate with NaN norm is declared converged (ordering comparisons with NaN are False)"
+                                                               if nan and r else "the four tolerance tests are not required conjunctively"))
+    TC.paths = n
 
 
 def _check_best_point(model: Model, ents, RB: RuleResult):
@@ -251,6 +308,32 @@ def _check_best_point(model: Model, ents, RB: RuleResult):
                 RB.bad(to_stop, n, "_best_x must be assigned from parameter `%s` only under `f < _best_f`" % px, what=what)
     if n_assign == 0:
         RB.bad(to_stop, to_stop.node, "_best_x is never recorded")
+    # (2b) the flag that suppresses the non-convergence warning and the best-point fall-back may only be raised when to_stop
+    #      itself reports convergence (its return value): otherwise a spurious hit silences the warning for a run that never stopped
+    trets = [r for r in own_nodes(to_stop.node) if isinstance(r, ast.Return) and r.value is not None]
+    sets = [n for n in own_nodes(to_stop.node) if isinstance(n, ast.Assign) and any(isinstance(t, ast.Attribute) and t.attr == "_ever_converge" for t in n.targets)]
+    if len(trets) != 1 or not sets:
+        raise AnalysisError("to_stop: expected one return and an assignment of _ever_converge")
+    rv = trets[0].value
+    tdefs = function_defs(to_stop.node)
+    rtxt = ast.unparse(rv)
+    rdef = ast.unparse(tdefs[rv.id][0]) if isinstance(rv, ast.Name) and len(tdefs.get(rv.id, [])) == 1 else rtxt
+    from ..rules.solverloop import enclosing_ifs as _eifs
+    for n in sets:
+        if not (isinstance(n.value, ast.Constant) and n.value.value is True):
+            continue
+        conj = []
+        for i_, inbody in _eifs(n, to_stop.node):
+            if not inbody:
+                continue
+            t = i_.test
+            conj += list(t.values) if isinstance(t, ast.BoolOp) and isinstance(t.op, ast.And) else [t]
+        implied = any(ast.unparse(c) in (rtxt, rdef, "(%s)" % rdef) for c in conj)
+        if implied:
+            RB.ok(to_stop.fq, "_ever_converge is raised only when to_stop returns True (`%s`)" % rdef)
+        else:
+            RB.bad(to_stop, n, "_ever_converge is raised on a path where to_stop does not report convergence (`return %s`): the non-convergence "
+                   "warning and the best-point fall-back are then skipped for a run that never stopped" % rtxt)
     # (3) get_best_x: warns and returns _best_x on the never-converged path, else its argument
     rets = [r for r in own_nodes(get_best.node) if isinstance(r, ast.Return) and r.value is not None]
     vals = sorted(ast.unparse(r.value) for r in rets)
